@@ -171,3 +171,9 @@ impl Ord for IndexBlob {
         self.location.cmp(&other.location)
     }
 }
+
+#[cfg(rustic_core_verif)]
+#[allow(missing_docs, unused_imports, dead_code, clippy::all, clippy::pedantic, clippy::nursery)]
+pub mod verif_hooks {
+    use super::*;
+}
